@@ -270,10 +270,16 @@ class KList(Kind):
     self.name = f'List[{elem.name}]'
     key = ('list', self.name)
     if key not in _DT_CACHE:
-      dt = z3.Datatype('L_' + _sort_name(elem.name))
-      dt.declare('mkl', ('len', IntS), ('arr', z3.ArraySort(IntS, elem.sort())))
+      sn = _sort_name(elem.name)
+      dt = z3.Datatype('L_' + sn)
+      dt.declare('mkl_' + sn, ('len_' + sn, IntS),
+                 ('arr_' + sn, z3.ArraySort(IntS, elem.sort())))
       _DT_CACHE[key] = dt.create()
     self.dt = _DT_CACHE[key]
+    sn = _sort_name(elem.name)
+    self.mk = getattr(self.dt, 'mkl_' + sn)
+    self.f_len = getattr(self.dt, 'len_' + sn)
+    self.f_arr = getattr(self.dt, 'arr_' + sn)
 
   def sort(self):
     return self.dt
@@ -281,11 +287,12 @@ class KList(Kind):
   def box(self, w):
     if isinstance(w, VOpt):
       raise OutOfSubset('optional used as list')
-    return self.dt.mkl(w.len, w.arr)
+    return self.mk(w.len, w.arr)
 
   def unbox(self, e):
-    e = z3.simplify(e) if z3.is_app(e) and e.decl().name() == 'mkl' else e
-    return VList(self, self.dt.len(e), self.dt.arr(e))
+    if z3.is_app(e) and e.decl().eq(self.mk):
+      return VList(self, e.arg(0), e.arg(1))
+    return VList(self, self.f_len(e), self.f_arr(e))
 
   def eq(self, a, b):
     """Extensional equality (quantified)."""
@@ -331,20 +338,27 @@ class KDict(Kind):
     self.name = f'Dict[{key.name},{val.name}]'
     k = ('dict', self.name)
     if k not in _DT_CACHE:
-      dt = z3.Datatype('D_' + _sort_name(self.name))
-      dt.declare('mkd', ('dom', z3.ArraySort(key.sort(), BoolS)),
-                 ('val', z3.ArraySort(key.sort(), val.sort())))
+      sn = _sort_name(self.name)
+      dt = z3.Datatype('D_' + sn)
+      dt.declare('mkd_' + sn, ('dom_' + sn, z3.ArraySort(key.sort(), BoolS)),
+                 ('val_' + sn, z3.ArraySort(key.sort(), val.sort())))
       _DT_CACHE[k] = dt.create()
     self.dt = _DT_CACHE[k]
+    sn = _sort_name(self.name)
+    self.mk = getattr(self.dt, 'mkd_' + sn)
+    self.f_dom = getattr(self.dt, 'dom_' + sn)
+    self.f_val = getattr(self.dt, 'val_' + sn)
 
   def sort(self):
     return self.dt
 
   def box(self, w):
-    return self.dt.mkd(w.dom, w.val)
+    return self.mk(w.dom, w.val)
 
   def unbox(self, e):
-    return VDict(self, self.dt.dom(e), self.dt.val(e))
+    if z3.is_app(e) and e.decl().eq(self.mk):
+      return VDict(self, e.arg(0), e.arg(1))
+    return VDict(self, self.f_dom(e), self.f_val(e))
 
   def eq(self, a, b):
     k = z3.Const('k!eq' + str(_depth(self)), self.key.sort())
@@ -374,20 +388,23 @@ class KTuple(Kind):
     self.name = 'Tup[' + ','.join(i.name for i in items) + ']'
     k = ('tuple', self.name)
     if k not in _DT_CACHE:
-      dt = z3.Datatype('T_' + _sort_name(self.name))
-      dt.declare('mkt', *[(f'f{i}', it.sort()) for i, it in enumerate(items)])
+      sn = _sort_name(self.name)
+      dt = z3.Datatype('T_' + sn)
+      dt.declare('mkt_' + sn, *[(f'f{i}_{sn}', it.sort()) for i, it in enumerate(items)])
       _DT_CACHE[k] = dt.create()
     self.dt = _DT_CACHE[k]
+    self.sn = _sort_name(self.name)
+    self.mk = getattr(self.dt, 'mkt_' + self.sn)
 
   def sort(self):
     return self.dt
 
   def box(self, w):
     assert len(w.items) == len(self.items), (w.items, self.items)
-    return self.dt.mkt(*[k.box(coerce(it, k)) for k, it in zip(self.items, w.items)])
+    return self.mk(*[k.box(coerce(it, k)) for k, it in zip(self.items, w.items)])
 
   def unbox(self, e):
-    return VTuple([k.unbox(getattr(self.dt, f'f{i}')(e))
+    return VTuple([k.unbox(getattr(self.dt, f'f{i}_{self.sn}')(e))
                    for i, k in enumerate(self.items)], self)
 
 
@@ -398,24 +415,30 @@ class KOpt(Kind):
     self.name = f'Opt[{inner.name}]'
     k = ('opt', self.name)
     if k not in _DT_CACHE:
-      dt = z3.Datatype('O_' + _sort_name(self.name))
-      dt.declare('none')
-      dt.declare('some', ('get', inner.sort()))
+      sn = _sort_name(self.name)
+      dt = z3.Datatype('O_' + sn)
+      dt.declare('none_' + sn)
+      dt.declare('some_' + sn, ('get_' + sn, inner.sort()))
       _DT_CACHE[k] = dt.create()
     self.dt = _DT_CACHE[k]
+    sn = _sort_name(self.name)
+    self.c_none = getattr(self.dt, 'none_' + sn)
+    self.c_some = getattr(self.dt, 'some_' + sn)
+    self.f_get = getattr(self.dt, 'get_' + sn)
+    self.is_none_f = getattr(self.dt, 'is_none_' + sn)
 
   def sort(self):
     return self.dt
 
   def box(self, w):
     if isinstance(w, VNone):
-      return self.dt.none
+      return self.c_none
     if isinstance(w, VOpt):
-      return z3.If(w.is_none, self.dt.none, self.dt.some(self.inner.box(w.inner)))
-    return self.dt.some(self.inner.box(w))
+      return z3.If(w.is_none, self.c_none, self.c_some(self.inner.box(w.inner)))
+    return self.c_some(self.inner.box(w))
 
   def unbox(self, e):
-    return VOpt(self, self.dt.is_none(e), self.inner.unbox(self.dt.get(e)))
+    return VOpt(self, self.is_none_f(e), self.inner.unbox(self.f_get(e)))
 
 
 class KRecord(Kind):
@@ -911,3 +934,38 @@ def escape(w):
       escape(i)
   if isinstance(w, VOpt):
     escape(w.inner)
+
+
+def _pattern_ok(e):
+  seen = set()
+  stack = [e]
+  has_var = False
+  while stack:
+    t = stack.pop()
+    if t.get_id() in seen:
+      continue
+    seen.add(t.get_id())
+    if z3.is_quantifier(t):
+      return False
+    if z3.is_var(t):
+      continue
+    if z3.is_app(t):
+      k = t.decl().kind()
+      if k in (z3.Z3_OP_ITE, z3.Z3_OP_AND, z3.Z3_OP_OR, z3.Z3_OP_NOT,
+               z3.Z3_OP_IMPLIES, z3.Z3_OP_EQ, z3.Z3_OP_LE, z3.Z3_OP_GE,
+               z3.Z3_OP_LT, z3.Z3_OP_GT, z3.Z3_OP_DISTINCT):
+        return False
+      stack.extend(t.children())
+  return True
+
+
+def forall(vs, body, patterns=()):
+  """ForAll with only those candidate triggers that are legal patterns."""
+  ok = []
+  for p in patterns:
+    ps = p if isinstance(p, (list, tuple)) else [p]
+    if all(_pattern_ok(z3.simplify(x)) and _pattern_ok(x) for x in ps):
+      ok.append(z3.MultiPattern(*ps) if len(ps) > 1 else ps[0])
+  if ok:
+    return z3.ForAll(list(vs), body, patterns=ok)
+  return z3.ForAll(list(vs), body)
